@@ -311,8 +311,9 @@ func fixedCases() []Case {
 			{o[11], o[12]},        // PATCH /admin/config
 			{o[13], o[14]},        // configuration reads
 			{o[16], o[17], o[18]}, // OAuth token endpoint
-			{reqRun(progGet(defs.OAuthClientSecretSetting))},                                                          // profile read
-			{{Route: "GET /dsns/{{dsn}}/tables/", Method: "GET", Path: "/dsns/" + dsnPG + "/tables/", Auth: "admin"}}, // connection failure
+			{reqRun(progGet(defs.OAuthClientSecretSetting))}, // profile read
+			{{Route: "GET /dsns/{{dsn}}/tables/", Method: "GET", Path: "/dsns/" + dsnPG + "/tables/", Auth: "admin"}, // connection failure
+				{Route: "GET /dsns/{{dsn}}/tables/{{table}}/rows", Method: "GET", Path: "/dsns/" + dsnPG + "/tables/" + tableName + "/rows", Auth: "admin"}},
 		}
 		if withUsers {
 			g = append(g, []Req{o[0], o[1], o[2], o[15], o[3]}) // user life cycle and a logon
